@@ -176,7 +176,10 @@ func VerifC02_UnzipStaysInside() {
 	if nested {
 		inner := vNameFromAlphabet("n2", 2, alphabet)
 		verif.Assume(inner != "")
-		entries = append(entries, vEntry{name: "n.zip", content: vBuildZip([]vEntry{{name: inner, content: []byte("y"), declared: -1}}), declared: -1})
+		// the nested archive's own name matters too: its stem names the nested destination
+		nestedName := vNameFromAlphabet("nz", 2+verif.Tier(), alphabet) + ".zip"
+		verif.Assume(nestedName != first)
+		entries = append(entries, vEntry{name: nestedName, content: vBuildZip([]vEntry{{name: inner, content: []byte("y"), declared: -1}}), declared: -1})
 	} else if verif.Bool("second") {
 		second := vNameFromAlphabet("n2", 2, alphabet)
 		verif.Assume(second != "" && second != first)
@@ -216,6 +219,11 @@ func VerifC02_UnzipStaysInside() {
 	}
 	// an entry that resolves outside makes the call fail with the malicious kind
 	escapes := !vInside(dest, first)
+	for _, e := range entries[1:] {
+		if !vInside(dest, e.name) {
+			escapes = true
+		}
+	}
 	if escapes {
 		verif.Assert("escaping_entry_is_refused_as_malicious", err != nil && commonerrors.Any(err, commonerrors.ErrMalicious))
 	}
